@@ -38,7 +38,7 @@ class C08(Engine):
     prop = "C08"
     name = "cli-sim+wellformedness-monitor"
     level = "exploration"
-    expected_kinds = {"emit_perm", "format_json", "prefix_chr", "prefix_line", "line_tail_lost", "tok_edit", "non_ascii", "multi_file", "synthetic_lists", "hashseed"}
+    expected_kinds = {"emit_perm", "format_json", "prefix_chr", "prefix_line", "line_tail_lost", "tok_edit", "non_ascii", "multi_file", "synthetic_lists", "hashseed", "none", "empty_selection"}
     rule_text = ("Single- and multi-file runs of the real main() over damaged and undamaged workload files in both formats; each human "
                  "run is paired with its `-f json` twin (W3) and re-run with K explicit permutations of Errors._inner (W4); W1/W2 are "
                  "evaluated on every printed report. Synthetic diagnostic lists (positions from a 4x4 grid, 1-3 highlights, catalogue "
@@ -51,7 +51,7 @@ class C08(Engine):
 
     def setup(self):
         q = self.tier == "quick"
-        self.pools = Pools(self.seed, n_gen=40 if q else 200, n_viol=30 if q else 300, n_cut=0, corpus_limit=None, tag="c08")
+        self.pools = Pools(self.seed, n_gen=40 if q else 200, n_viol=30 if q else 300, n_cut=0, corpus_limit=None, tag="c08", big_family=True)
         self.pools.register()
 
     def prepare(self):
@@ -124,6 +124,19 @@ class C08(Engine):
                     sc["ops"] = [{"op": "cli", "argv": ["--no-colors", nm], "emit_perms": [rng.randrange(1 << 30) if k else "rev"]}]
                     yield idx, sc
                     idx += 1
+        # every hand-written special once, undamaged (the random draw above reaches each of them only now and then)
+        idx = 500_000
+        for b in ids:
+            if P.meta[b]["group"].startswith("special_"):
+                nm = P.files[b]["name"]
+                yield idx, {"kind": "single", "fault": "none", "tree": {nm: "@" + b}, "ops": [{"op": "cli", "argv": ["-f", "json", nm]}]}
+                idx += 1
+        # runs that select no source at all: the JSON document still has to be one (with no files in it)
+        idx = 600_000
+        for tree, argv, cwd in (({"empty": {}}, ["empty"], "."), ({"docs": {"notes.txt": "x\n", "a.cpp": "int x;\n"}}, ["docs"], "."),
+                                ({"empty": {}}, [], "empty"), ({"a": {"b": {"c": {}}}}, ["a"], "."), ({"e1": {}, "e2": {}}, ["e1", "e2"], ".")):
+            yield idx, {"kind": "empty", "fault": "empty_selection", "tree": tree, "ops": [{"op": "cli", "argv": ["-f", "json"] + argv, "cwd": cwd}]}
+            idx += 1
         # multi-file runs
         n_multi = 250 if q else 5000
         idx = 1_000_000
@@ -228,7 +241,9 @@ class C08(Engine):
             argv = ["--no-colors"] + argv[2:]
         t = {k: v for k, v in sc.items() if k in ("files", "tree")}
         t["ops"] = [{"op": "cli", "argv": argv}]
-        key = ("c08twin", core.sha(json.dumps([self.tree_sig(sc), argv], sort_keys=True, default=str)), sc.get("twin_hashseed"))
+        if op.get("cwd"):
+            t["ops"][0]["cwd"] = op["cwd"]
+        key = ("c08twin", core.sha(json.dumps([self.tree_sig(sc), argv, op.get("cwd")], sort_keys=True, default=str)), sc.get("twin_hashseed"))
         return key, t
 
     def ensure_refs(self, scs):
@@ -265,7 +280,7 @@ class C08(Engine):
         return out
 
     def refs_needed(self, sc):
-        if sc.get("kind") in ("single", "multi", "emit"):
+        if sc.get("kind") in ("single", "multi", "emit", "empty"):
             return [self.twin(sc)]
         return []
 
@@ -374,6 +389,17 @@ class C08(Engine):
             return vs
         # W3: json twin. A run in which some file was fatally unparsable prints the human fatal line under
         # -f json too; the statement is silent about that case (C04 only asks that the file be named).
+        if kind == "empty" and o.get("end") in ("exit", "returned") and t.get("end") in ("exit", "returned"):
+            out = o.get("stdout", "")
+            try:
+                doc = json.loads(out)
+                ok = isinstance(doc, dict) and doc.get("files") == []
+            except Exception:  # noqa
+                ok = False
+            if not ok and not parse_human(t.get("stdout", "")):
+                vs.append(Violation(self.prop, "C08.W3-json-equals-human", "no source selected: the -f json run does not print a JSON document with no files",
+                                    {"stdout_head": out[:80]}))
+            return vs
         if not o.get("reports") or not t.get("reports"):
             return vs
         if ": Error!\n\t" in strip_ansi(t.get("stdout", "")):
@@ -390,6 +416,11 @@ class C08(Engine):
                                 {"error": str(e)[:100], "stdout_head": out[:80]}))
             return vs
         human = parse_human(t.get("stdout", ""))
+        stray = [ln for ln in strip_ansi(t.get("stdout", "")).split("\n") if ln.strip() and not HUMAN_RE.match(ln) and not VERDICT_RE.match(ln)]
+        if stray and human:
+            vs.append(Violation(self.prop, "C08.W3-json-equals-human", "the human-readable report has a line that is neither a verdict nor a diagnostic",
+                                {"line": stray[0][:120]}))
+            return vs
         jfiles = doc.get("files") if isinstance(doc, dict) else None
         if not isinstance(jfiles, list) or len(jfiles) != len(human):
             vs.append(Violation(self.prop, "C08.W3-json-equals-human", "the two formats describe a different number of files",
@@ -432,8 +463,10 @@ class C08(Engine):
         else:
             self.fire("format_json")
         fk = sc.get("fault")
-        if fk in ("prefix_chr", "non_ascii", "multi_file", "prefix_line"):
+        if fk in ("prefix_chr", "non_ascii", "multi_file", "prefix_line", "none", "empty_selection"):
             self.fire(fk)
+        if any(len(f["diags"] or []) > 1000 for rep in o.get("reports") or [] for f in rep["files"]):
+            self.count("lists", "with_more_than_1000_diagnostics")
         if fk in ("tok_edit", "lexical"):
             self.fire("tok_edit")
         for rep in o.get("reports") or []:
